@@ -847,7 +847,7 @@ def _clip_facts(A, g):
     return facts
 
 
-@rule('R15.g', ('C15', 'C12'), 'rows and columns given by the script are '
+@rule('R15.g', ('C15', 'C12', 'C18'), 'rows and columns given by the script are '
       'clipped to the matrix before they index its cells', floor=2,
       decides='a rectangle that reaches beyond the matrix (or a negative '
               'index) colours the cells that exist and nothing else; it does '
